@@ -10,6 +10,7 @@ PROFILES = {
     'of': dict(max_depth=3, normalization=0.0, logical=0.7),
     'deep': dict(max_depth=4, normalization=0.0, logical=0.2, wrong_shape=0.1),
     'wrong': dict(max_depth=2, normalization=0.0, logical=0.2, wrong_shape=0.6),
+    'nones': dict(max_depth=2, normalization=0.0, logical=0.6, wrong_shape=0.05),
     # with normalization rules
     'normalize': dict(max_depth=3, normalization=0.5, logical=0.15),
     'mixed': dict(max_depth=3, normalization=0.25, logical=0.25, named=0.3),
@@ -24,13 +25,17 @@ def make_case(seed, index, profile='validate', norm_cfg=None):
     norm = params.get('normalization', 0) > 0 if norm_cfg is None else norm_cfg
     schema = g.schema()
     cfg = g.config(depth=1, norm=norm)
-    if rng.random() < 0.7:
+    if profile == 'nones':
+        doc = g.nones_document(schema)
+    elif rng.random() < 0.7:
         doc = g.document(schema)
     else:
         doc = g.arbitrary_document()
         for f in list(schema)[:2]:
             if rng.random() < 0.5:
                 doc[f] = g.anyval(2)
+    if profile in ('wrong', 'validate', 'deep') and rng.random() < 0.5:
+        doc = g.poison_dependencies(schema, doc)
     case = {'schema': schema, 'cfg': cfg, 'doc': doc, 'update': rng.random() < 0.25,
             'cls': 'VV' if g.uses_named else 'V', 'seed': seed, 'index': index, 'profile': profile}
     return case, g
